@@ -5,6 +5,10 @@
 From Got Require Import Base Aes.
 Local Open Scope nat_scope.
 
+(* all values are bytes; a block is 16 bytes *)
+Definition aess_bytes (l : list N) : Prop := Forall (fun x => (x < 256)%N) l.
+Definition aess_block (b : list N) : Prop := length b = 16 /\ aess_bytes b.
+
 (* PKCS#7 to a block size of 16: 1..16 bytes, each equal to their number *)
 Definition aess_pkcs7 (p : list N) : list N :=
   let n := 16 - length p mod 16 in p ++ repeat (N.of_nat n) n.
